@@ -50,9 +50,15 @@ def Ty.rank : Ty → Nat
 def Ty.sg : Ty → Nat
   | .cint _ s _ => s | _ => 1
 
-/-- `a.__lt__(b)` of PyrexTypes.  `mvBelow c` = `id(MemoryViewSliceType) < id(<class c>)` in the
+/-- `a.__lt__(b)` of PyrexTypes.  A memoryview type has no `__lt__` of its own: the base
+`PyrexType.__lt__` compares OBJECT ADDRESSES, `id(type(self)) < id(type(other))`.  That order is a fact of
+the compiling process (it depends on the import sequence), so it is a parameter: `classOrder b` = the
+address comparison `id(MemoryViewSliceType) < id(type(b))` for member `b` (every function of `b` is
+allowed, which covers every assignment of addresses to the Python classes of the type objects,
+including the subclasses used for Py_ssize_t, size_t and the builtin container types).
+`mvBelow c` = `id(MemoryViewSliceType) < id(<class c>)` in the
 compiling process (a fact of the process, read by the harness from the staged compiler). -/
-def lt (mvBelow : Nat → Bool) (a b : Ty) : Bool :=
+def lt (mvBelow : Ty → Bool) (a b : Ty) : Bool :=
   match a with
   | .cint .. | .bint | .cfloat .. =>
     if b.isNumeric then decide (a.rank > b.rank) && decide (a.sg ≥ b.sg) else true
@@ -61,7 +67,7 @@ def lt (mvBelow : Nat → Bool) (a b : Ty) : Bool :=
     | .ccomplex rb _ => decide (ra > rb)
     | _ => false
   | .obj | .builtin _ | .ext _ => false
-  | .mview .. => mvBelow b.cls
+  | .mview .. => mvBelow b
 
 /-! ### CPython 3.12 `list.sort` for fewer than 64 elements: `count_run` + `binarysort` -/
 section PySortAlg
@@ -202,7 +208,7 @@ def withIdx {α : Type} (xs : List α) : List (α × Nat) := xs.zipIdx
 def testTypes (members : List Ty) (ndim : Nat) : Option (List Ty) :=
   if ndim = 0 then some members else members.mapM (toMv ndim)
 
-def sortedMembers (mvBelow : Nat → Bool) (tys : List Ty) : List (Ty × Nat) :=
+def sortedMembers (mvBelow : Ty → Bool) (tys : List Ty) : List (Ty × Nat) :=
   pySort (fun a b => lt mvBelow a.1 b.1) (withIdx tys)
 
 /-! ### The dispatcher `__pyx_fused_cpdef` -/
@@ -217,7 +223,7 @@ structure Param where
   deriving Repr
 
 structure Decl where
-  mvBelow : Nat → Bool
+  mvBelow : Ty → Bool
   fvars : List (List Ty)
   params : List Param
 
